@@ -247,10 +247,32 @@ pub fn run_large_assertions(rng: &mut Rng, out: &mut Out, n: usize) {
     }
 }
 
+/// honest proofs at the documented maxima of the proof tables: 255 queries over a domain large
+/// enough that (almost always) all 255 positions are distinct, and 255 trace columns
+pub fn run_maxima(rng: &mut Rng, out: &mut Out, n: usize) {
+    install_panic_hook();
+    for it in 0..n {
+        let (field, hasher) = *[("f128", "b3"), ("f64", "b3"), ("f64", "rp64"), ("f62", "sha")].get(it % 4).unwrap();
+        let p = modulus(field);
+        let logn = if it % 2 == 0 { 12 } else { 11 };
+        let inst = crate::genair::gen_instance_shaped(rng, p, logn, logn, false, false);
+        let mut opts = gen_opts(rng, &inst, field, false);
+        opts.b = 64; opts.q = 255; opts.g = 0; opts.f = 4; opts.rd = 31; opts.np = 1; opts.hr = 1;
+        if !fri_compatible(inst.n, opts.f, opts.rd) { opts.f = 2; opts.rd = 31; }
+        let claimed = claimed_of(&inst, None);
+        out.count("maxima:255-queries");
+        out.case(&req("c01", field, hasher, &inst, None, &opts), "ok", || {
+            let o = run_cfg(field, hasher, &inst, &claimed, &opts, None);
+            if o.verdict == "ok" { "ok".into() } else { format!("reject {}", o.detail) }
+        });
+    }
+}
+
 /// C01: honest instances; the oracle is `ok`
 pub fn run_c01(rng: &mut Rng, out: &mut Out, n: usize) {
     install_panic_hook();
     run_large_assertions(rng, out, (n / 8).max(3));
+    run_maxima(rng, out, (n / 60).max(3));
     for it in 0..n {
         let (field, hasher) = pick_cfg(rng);
         let p = modulus(field);
